@@ -43,24 +43,12 @@ def extra(prog, tr):
 
 
 def resumed_items(chk):
-    """Serialise/resume points: the routing programs (and a waiter with a requirement that shares its input type with a
-    plain step) are run along explored schedules, snapshotted at the end of the schedule and resumed."""
-    import random
-    from harness.drivers import engine_traces as et
+    """Serialise/resume points: the routing programs and a waiter with a requirement that shares its input type with a
+    plain step."""
     from harness.programs import scenarios as sc
-    rng = random.Random(chk.seed + 3)
-    out = []
-    progs = [("waiter_shared_input+resume", sc.waiter_shared_input(), [("Resp1", None)]),
-             ("overlap(1,2,2)+resume", sc.overlap(1, 2, 2), []),
-             ("targeted(2)+resume", sc.targeted(2), [])]
-    for (label, prog, ext) in progs:
-        paths = et.explore(prog, ext_menu=(), max_depth=8, max_paths=chk.pick(6, 40), rng=random.Random(rng.random()),
-                           timeout_advance=False, drain=False, max_ext=0)
-        for (_tr, sched) in paths:
-            for cut in sorted({len(sched), max(1, len(sched) // 2)}):
-                tr = et.replay_then_resume(prog, sched[:cut], ext_menu=ext)
-                out.append((label, prog, ext, tr, sched[:cut]))
-    return out
+    return eg.collect_resumed(chk, [("waiter_shared_input", sc.waiter_shared_input(), [("Resp1", None)]),
+                                    ("overlap(1,2,2)", sc.overlap(1, 2, 2), []),
+                                    ("targeted(2)", sc.targeted(2), [])])
 
 
 def run(chk):
